@@ -504,6 +504,12 @@ def pool_check(mod, tier, seed):
                 res.add_obligation("axiom-audit-ran", False, "audit", aout[-500:])
         toks = common.forbidden_token_scan()
         res.add_obligation("no-forbidden-tokens(sorry/admit/axiom/native_decide/bv_decide/...)", not toks, "audit", "; ".join(toks))
+        lc_fail = None
+        if bok and tier == "thorough":
+            lok, lout = common.leancheck(mod.LEAN_MODULES)
+            res.add_obligation("leanchecker re-checks the compiled property modules", lok, "audit", "" if lok else lout[-800:])
+            if not lok:
+                lc_fail = "leanchecker rejected a compiled module: " + lout[-300:]
         hok, hout, _, binpath = common.build_harness()
         res.add_obligation("harness-builds-against-working-tree", hok, "tie", "" if hok else hout[-800:])
         rok, rout, rt, racebin = (False, "", 0, None)
@@ -528,6 +534,8 @@ def pool_check(mod, tier, seed):
         broken_names.append("%s (forbidden axioms %s)" % (t["name"], t["axioms"]))
     if toks:
         broken_names.append("forbidden tokens: " + "; ".join(toks))
+    if lc_fail:
+        broken_names.append(lc_fail)
     if not gen_ok:
         broken_names.append("T1/T3 regeneration: " + out[-300:])
 
